@@ -353,6 +353,10 @@ func c06Atoms(thorough bool, emit func(c06case)) {
 		{val.SS("a", "b"), val.SS("a", "c")}, {val.SS("a"), val.SS("a", "b")}, {val.SS("a", "b"), val.SS("a")},
 		{val.NS("1", "2"), val.NS("1", "3")}, {val.NS("1"), val.NS("1", "2")}, {val.NS("1", "2"), val.NS("1")}, {val.NS("1.0", "2"), val.NS("2.00", "1")},
 		{val.BS([]byte{1}, []byte{2}), val.BS([]byte{1}, []byte{3})}, {val.BS([]byte{1}), val.BS([]byte{1}, []byte{2})}, {val.BS([]byte{1}, []byte{2}), val.BS([]byte{1})},
+		// a list that is a prefix of the other, a map whose entries are a subset of the other's
+		{val.L(val.S("x")), val.L(val.S("x"), val.S("y"))}, {val.L(val.S("x"), val.S("y")), val.L(val.S("x"))}, {val.L(), val.L(val.S("x"))},
+		{val.M("k", val.N("1")), val.M("k", val.N("1"), "j", val.N("2"))}, {val.M("k", val.N("1"), "j", val.N("2")), val.M("k", val.N("1"))}, {val.M(), val.M("k", val.N("1"))},
+		{val.L(val.S("x"), val.S("x"), val.S("y")), val.L(val.S("x"), val.S("y"), val.S("y"))},
 		// sets nested in documents, members written in another order
 		{val.M("k", val.SS("a", "b")), val.M("k", val.SS("b", "a"))}, {val.M("k", val.NS("1", "2")), val.M("k", val.NS("2", "1"))}, {val.M("k", val.BS([]byte{1}, []byte{2})), val.M("k", val.BS([]byte{2}, []byte{1}))},
 		{val.L(val.BS([]byte{1}, []byte{2})), val.L(val.BS([]byte{2}, []byte{1}))}, {val.L(val.SS("a", "b")), val.L(val.SS("a", "c"))},
